@@ -36,7 +36,8 @@ ASSUMPTIONS = [
     'compartment processes are inert or idle when the operation is applied '
     '(operations against in-flight updates are C10\'s subject)',
 ]
-BOUNDS = {'quick': {'depth': 3}, 'thorough': {'depth': 4}}
+BOUNDS = {'quick': {'depth': 3, 'pairs': 'at the first two operations'},
+          'thorough': {'depth': 4, 'pairs': 'at every operation'}}
 
 INITS = [{'X': ['a', 'b'], 'Y': []}, {'X': ['a'], 'Y': ['b']},
          {'X': [], 'Y': []}]
@@ -235,6 +236,9 @@ def jobs(ctx):
                 not ctx.quick else depth - 1
             hists, seen, trans = st.enumerate_histories(
                 init, kind, d, with_pairs=True,
+                # quick tier: the third operation of a history is a
+                # single operation (pairs at the first two)
+                pair_levels=2 if ctx.quick else None,
                 proc_issuer=(issuer == 'process'))
             if issuer == 'step' and kind == 'inert':
                 # cleared (None) variables and falsy leaf children, without
@@ -309,3 +313,7 @@ def replay(case):
         run_history((case['init'], tup(case['history']), case['issuer'],
                      case['kind'], case['reject']), acc)
     return [v for exs in acc.viol_examples.values() for v in exs]
+
+
+RULE += (
+    ' Rejection also for ONE _add list that names the same new key twice. Step-issued worlds hold a census step that depends on the operator step: it must be shown the children as they are after the operation, in the same phase.')
